@@ -529,6 +529,60 @@ func Universe(dir string) ([]Item, error) {
 		},
 	)
 
+	// --- long lists: every element given by the environment arrives, at its place
+	const manyProxies, manyMechanisms = 1500, 300
+
+	proxies := make([]any, manyProxies)
+	for i := range proxies {
+		proxies[i] = fmt.Sprintf("10.%d.%d.%d", 1+i/65536, (i/256)%256, i%256) //nolint:mnd
+	}
+
+	items = append(items, Item{
+		Name: fmt.Sprintf("long_list:trusted_proxies:%d", manyProxies), Category: "long-list", Source: "both",
+		Config: m{"serve": m{"decision": m{"trusted_proxies": proxies}}},
+		Effective: func(c *config.Configuration) (bool, string) {
+			var got []string
+			if c.Serve.Decision.TrustedProxies != nil {
+				got = *c.Serve.Decision.TrustedProxies
+			}
+
+			if len(got) != manyProxies {
+				return false, fmt.Sprintf("%d of %d elements", len(got), manyProxies)
+			}
+
+			for i := range got {
+				if got[i] != proxies[i] {
+					return false, fmt.Sprintf("element %d is %s", i, got[i])
+				}
+			}
+
+			return true, ""
+		},
+	})
+
+	authns := make([]any, manyMechanisms)
+	for i := range authns {
+		authns[i] = m{"id": fmt.Sprintf("authn_%d", i), "type": "anonymous"}
+	}
+
+	items = append(items, Item{
+		Name: fmt.Sprintf("long_list:authenticators:%d", manyMechanisms), Category: "long-list", Source: "both",
+		Config: m{"mechanisms": m{"authenticators": authns}},
+		Effective: func(c *config.Configuration) (bool, string) {
+			if c.Prototypes == nil || len(c.Prototypes.Authenticators) != manyMechanisms {
+				return false, "not all elements"
+			}
+
+			for i, a := range c.Prototypes.Authenticators {
+				if a.ID != fmt.Sprintf("authn_%d", i) || a.Type != "anonymous" {
+					return false, fmt.Sprintf("element %d is %s/%s", i, a.ID, a.Type)
+				}
+			}
+
+			return true, ""
+		},
+	})
+
 	// --- endpoint authentication strategies (names of the loader: authstrategy/mapstructure_decoder.go)
 	var authSchema map[string]any
 
